@@ -349,6 +349,12 @@ func (s *solo) makePlan(uid uint64, c *rpcbench.Content, simple bool) *rpcbench.
 			p.TakeArgs = append(p.TakeArgs, i)
 		}
 	}
+	// an implementation that has placed capabilities in its results and then
+	// fails: the answer owns those references until Finish / Close
+	if len(p.ResCaps) > 0 && !p.Fails() && s.rng.Chance(1, 3) {
+		p.FailAfterResults = true
+		s.count("plans_fail_after_result_caps", 1)
+	}
 	return s.w.Plan(p)
 }
 
@@ -429,7 +435,7 @@ func (s *solo) resultPathTarget(q *peerQ, path []int) (lc *rpcbench.LocalCap, to
 	if q.plan == nil || len(path) == 0 {
 		return nil, false, false
 	}
-	if q.plan.Behaviour == rpcbench.BehExcNow || q.plan.Behaviour == rpcbench.BehAckBlockExc {
+	if q.plan.Fails() {
 		return nil, false, false
 	}
 	for _, rc := range q.plan.ResCaps {
